@@ -1386,17 +1386,16 @@ Qed.
 
 (** the destination positions the interpreter derives from start, end and exclusions of the R record
     that [distribute] writes are the positions of the destination wells *)
-Lemma dsts_perm ps p0 tl : NoDup ps -> sort_Z (map Z.of_nat ps) = p0 :: tl ->
+Lemma dsts_mem ps p0 tl : sort_Z (map Z.of_nat ps) = p0 :: tl ->
   let sorted := p0 :: tl in
   let plast := last sorted p0 in
   let excl := filter (fun z => negb (existsb (Z.eqb z) sorted))
                 (map (fun i => (p0 + Z.of_nat i)%Z) (seq 0 (Z.to_nat (plast - p0 + 1)))) in
-  Permutation
-    (filter (fun p => negb (existsb (Z.eqb (Z.of_nat p)) (sort_Z excl)))
-            (seq (Z.to_nat p0) (Z.to_nat plast + 1 - Z.to_nat p0)))
-    ps.
+  forall p,
+    In p (filter (fun p => negb (existsb (Z.eqb (Z.of_nat p)) (sort_Z excl)))
+            (seq (Z.to_nat p0) (Z.to_nat plast + 1 - Z.to_nat p0))) <-> In p ps.
 Proof.
-  intros ND Hs sorted plast excl.
+  intros Hs sorted plast excl.
   pose proof (sort_Z_sorted (map Z.of_nat ps)) as Hsorted. rewrite Hs in Hsorted.
   assert (Hmem : forall z, In z sorted <-> In z (map Z.of_nat ps)).
   { intro z. unfold sorted. rewrite <- Hs. split; apply Permutation_in;
@@ -1416,7 +1415,6 @@ Proof.
       apply filter_In. split.
       + apply in_map_iff. exists (Z.to_nat (z - p0)). split; [lia|]. apply in_seq. lia.
       + destruct (existsb (Z.eqb z) sorted) eqn:E; [|reflexivity]. apply existsb_Zeqb in E. contradiction. }
-  apply NoDup_Permutation; [apply NoDup_filter, seq_NoDup|exact ND|].
   intro p. rewrite filter_In, in_seq. split.
   - intros [Hr Hn]. destruct (existsb (Z.eqb (Z.of_nat p)) (sort_Z excl)) eqn:E; [discriminate|].
     assert (Hnot : ~ In (Z.of_nat p) (sort_Z excl)) by (intro C; apply existsb_Zeqb in C; congruence).
@@ -1430,6 +1428,20 @@ Proof.
     pose proof (Hbd _ Hs') as Hb. split; [lia|].
     destruct (existsb (Z.eqb (Z.of_nat p)) (sort_Z excl)) eqn:E; [|reflexivity].
     apply existsb_Zeqb in E. apply Hexcl in E. destruct E as [_ E]. contradiction.
+Qed.
+
+Lemma dsts_perm ps p0 tl : NoDup ps -> sort_Z (map Z.of_nat ps) = p0 :: tl ->
+  let sorted := p0 :: tl in
+  let plast := last sorted p0 in
+  let excl := filter (fun z => negb (existsb (Z.eqb z) sorted))
+                (map (fun i => (p0 + Z.of_nat i)%Z) (seq 0 (Z.to_nat (plast - p0 + 1)))) in
+  Permutation
+    (filter (fun p => negb (existsb (Z.eqb (Z.of_nat p)) (sort_Z excl)))
+            (seq (Z.to_nat p0) (Z.to_nat plast + 1 - Z.to_nat p0)))
+    ps.
+Proof.
+  intros ND Hs sorted plast excl.
+  apply NoDup_Permutation; [apply NoDup_filter, seq_NoDup|exact ND|]. apply (dsts_mem ps p0 tl Hs).
 Qed.
 
 (* ------------------------------------------------------------------ pieces of the R record *)
@@ -1652,9 +1664,18 @@ Qed.
 Lemma st_wl_condense t k n l : st_wl (condense_at t k n l) = st_wl t.
 Proof. unfold condense_at. destruct (nth_error (st_lw t) k); reflexivity. Qed.
 
-(** a failed [distribute] has emitted at most comment records *)
+Definition no_ad (r : srec) : bool := match r with RA _ | RD _ => false | _ => true end.
+
+Lemma quiet_no_ad new : forallb quiet new = true -> forallb no_ad new = true.
+Proof.
+  intro H. apply forallb_forall. intros r Hin. rewrite forallb_forall in H. specialize (H r Hin).
+  destruct r; try reflexivity; discriminate.
+Qed.
+
+(** [distribute] appends comment records and at most one R record; a failed call only comments *)
 Lemma distribute_quiet_fail s ks kd dwells a s' e : distribute s ks kd dwells a = (s', e) ->
-  exists new, st_wl s' = emit (st_wl s) new /\ (e <> None -> forallb quiet new = true).
+  exists new, st_wl s' = emit (st_wl s) new /\ forallb no_ad new = true /\
+              (e <> None -> forallb quiet new = true).
 Proof.
   unfold distribute. cbv zeta. intro H.
   repeat match type of H with
@@ -1662,16 +1683,17 @@ Proof.
          | context [if ?b then _ else _] => destruct b eqn:?
          end;
     injection H as <- <-; cbn [st_wl set_wl set_lw]; rewrite ?st_wl_condense; cbn [st_wl set_wl set_lw];
-    try (exists []; rewrite emit_nil; split; [reflexivity|intros _; reflexivity]).
+    try (exists []; rewrite emit_nil; split; [reflexivity|split; [reflexivity|intros _; reflexivity]]).
   all: match goal with Ec : comment _ _ = (_, _) |- _ =>
          rewrite ?st_wl_condense in Ec; cbn [st_wl set_wl set_lw] in Ec;
          destruct (comment_quiet _ _ _ _ Ec) as (nc & Wc & Qc) end.
-  all: try (exists nc; split; [exact Wc|intros _; exact Qc]).
+  all: try (exists nc; split; [exact Wc|split; [apply quiet_no_ad; exact Qc|intros _; exact Qc]]).
   all: match goal with Er : reagent_distribution _ _ = (_, ?eo) |- _ =>
          pose proof (reagent_distribution_spec _ _ _ _ Er) as Hr; destruct eo as [eo|] end.
-  all: try (subst; exists nc; split; [reflexivity|intros _; exact Qc]).
+  all: try (subst; exists nc; split; [reflexivity|split; [apply quiet_no_ad; exact Qc|intros _; exact Qc]]).
   all: destruct Hr as (f & v & Hw & _); exists (nc ++ [RR f])%list;
-    (split; [rewrite Hw, Wc, emit_emit; reflexivity|intro C; congruence]).
+    (split; [rewrite Hw, Wc, emit_emit; reflexivity|]);
+    (split; [rewrite forallb_app, (quiet_no_ad _ Qc); reflexivity|intro C; congruence]).
 Qed.
 
 Lemma sim_racks_upd_rel lws rs k L L' :
@@ -1855,7 +1877,7 @@ Theorem distribute_replay s ks kd dwells a s' e rb :
     (e = None -> sim s' rb') /\ (e <> None -> sim s rb' /\ forallb quiet new = true).
 Proof.
   intros Hgood Hsim Hdev Hnd H. destruct e as [e|].
-  - destruct (distribute_quiet_fail _ _ _ _ _ _ _ H) as (new & Hw & Hq).
+  - destruct (distribute_quiet_fail _ _ _ _ _ _ _ H) as (new & Hw & _ & Hq).
     specialize (Hq ltac:(discriminate)).
     destruct (interp_quiet true (w_dev (st_wl s)) new rb Hq) as (rb' & A & B).
     exists new, rb'. split; [exact Hw|]. split; [exact A|]. split; [discriminate|].
@@ -2030,8 +2052,6 @@ Qed.
 
 (* ------------------------------------------------------------------ C03: no step above the worklist's max_volume *)
 
-Definition no_ad (r : srec) : bool := match r with RA _ | RD _ => false | _ => true end.
-
 Definition bounded_rec (m : Q) (r : srec) : Prop :=
   match r with RA f | RD f => 0 <= ad_volume f /\ ad_volume f <= m | _ => True end.
 
@@ -2052,12 +2072,6 @@ Lemma no_ad_bounded m new : forallb no_ad new = true -> Forall (bounded_rec m) n
 Proof.
   intro H. apply Forall_forall. intros r Hin. rewrite forallb_forall in H. specialize (H r Hin).
   destruct r; try exact I; discriminate.
-Qed.
-
-Lemma quiet_no_ad new : forallb quiet new = true -> forallb no_ad new = true.
-Proof.
-  intro H. apply forallb_forall. intros r Hin. rewrite forallb_forall in H. specialize (H r Hin).
-  destruct r; try reflexivity; discriminate.
 Qed.
 
 Lemma emits_no_ad w w' new : w' = emit w new -> forallb no_ad new = true -> emits_bounded w w'.
@@ -2230,4 +2244,547 @@ Proof.
     pose proof (emits_bounded_trans _ _ _ H1 (exec_emits _ _ _ _ _ _ _ _ Ee)) as H2;
     (destruct e2 as [e2|]; [injection H as <- <-; exact H2|]);
     destruct (ks =? kd)%nat; injection H as <- <-; rewrite ?st_wl_condense; exact H2.
+Qed.
+
+Lemma distribute_emits s ks kd dwells a s' e :
+  distribute s ks kd dwells a = (s', e) -> emits_bounded (st_wl s) (st_wl s').
+Proof.
+  intro H. destruct (distribute_quiet_fail _ _ _ _ _ _ _ H) as (new & Hw & Hn & _).
+  eapply emits_no_ad; eassumption.
+Qed.
+
+Lemma evo_aspirate_emits s k a label s' e :
+  evo_aspirate s k a label = (s', e) -> emits_bounded (st_wl s) (st_wl s').
+Proof.
+  unfold evo_aspirate, wells_vols. cbv zeta. intro H.
+  repeat match type of H with
+         | context [match comment ?w ?l with _ => _ end] => destruct (comment w l) as [wc ec] eqn:Ec
+         | context [match ?x with _ => _ end] => destruct x
+         end;
+    injection H as <- <-; cbn [st_wl set_wl set_lw]; try apply emits_bounded_refl;
+    cbn [st_wl set_lw] in Ec; pose proof (emits_quiet _ _ (comment_quiet _ _ _ _ Ec)) as H1; try exact H1.
+  eapply emits_bounded_trans; [exact H1|]. eexists. split; [reflexivity|]. constructor; [exact I|constructor].
+Qed.
+
+Lemma evo_dispense_emits s k a label comps s' e :
+  evo_dispense s k a label comps = (s', e) -> emits_bounded (st_wl s) (st_wl s').
+Proof.
+  unfold evo_dispense, wells_vols. cbv zeta. intro H.
+  repeat match type of H with
+         | context [match comment ?w ?l with _ => _ end] => destruct (comment w l) as [wc ec] eqn:Ec
+         | context [match ?x with _ => _ end] => destruct x
+         end;
+    injection H as <- <-; cbn [st_wl set_wl set_lw]; try apply emits_bounded_refl;
+    cbn [st_wl set_lw] in Ec; pose proof (emits_quiet _ _ (comment_quiet _ _ _ _ Ec)) as H1; try exact H1.
+  eapply emits_bounded_trans; [exact H1|]. eexists. split; [reflexivity|]. constructor; [exact I|constructor].
+Qed.
+
+Lemma evo_wash_emits s a s' e : evo_wash s a = (s', e) -> emits_bounded (st_wl s) (st_wl s').
+Proof.
+  unfold evo_wash. intro H. destruct (evo_wash_cmd a) as [cmd|e0]; injection H as <- <-.
+  - eexists. split; [reflexivity|]. constructor; [exact I|constructor].
+  - apply emits_bounded_refl.
+Qed.
+
+Lemma on_wl_emits s f s' e : (forall w w' e0, f w = (w', e0) -> emits_bounded w w') ->
+  on_wl s f = (s', e) -> emits_bounded (st_wl s) (st_wl s').
+Proof.
+  intros Hf H. unfold on_wl in H. destruct (f (st_wl s)) as [w e0] eqn:E. injection H as <- <-.
+  eapply Hf. exact E.
+Qed.
+
+Lemma on_lw_emits s k f s' e : on_lw s k f = (s', e) -> emits_bounded (st_wl s) (st_wl s').
+Proof.
+  unfold on_lw. intro H. destruct (nth_error (st_lw s) k) as [L|].
+  - destruct (f L) as [L' e0]. injection H as <- <-. apply emits_bounded_refl.
+  - injection H as <- <-. apply emits_bounded_refl.
+Qed.
+
+Lemma reagent_distribution_emits w a w' e : reagent_distribution w a = (w', e) -> emits_bounded w w'.
+Proof.
+  intro H. apply reagent_distribution_spec in H. destruct e as [e|].
+  - subst. apply emits_bounded_refl.
+  - destruct H as (f & v & -> & _). eexists. split; [reflexivity|]. constructor; [exact I|constructor].
+Qed.
+
+(** every operation of a program, accepted or rejected *)
+Theorem step_emits s o s' e : step s o = (s', e) -> emits_bounded (st_wl s) (st_wl s').
+Proof.
+  destruct o as [k wells vols label comps|k wells vols label|k n label|k wells vols label kw
+                |k wells vols label comps kw|ks swells kd dwells vols label ws pb kw|ks kd dwells a
+                |c|sch| | | |i|a|a|a|k a label|k a label comps|a]; cbn [step]; intro H.
+  - eapply on_lw_emits; exact H.
+  - eapply on_lw_emits; exact H.
+  - eapply on_lw_emits; exact H.
+  - eapply aspirate_emits; exact H.
+  - eapply dispense_emits; exact H.
+  - eapply transfer_emits; exact H.
+  - eapply distribute_emits; exact H.
+  - eapply on_wl_emits; [|exact H]. intros w w' e0 E. apply emits_quiet. eapply comment_quiet. exact E.
+  - eapply on_wl_emits; [|exact H]. intros w w' e0 E. apply emits_quiet. eapply wash_spec. exact E.
+  - eapply on_wl_emits; [|exact H]. intros w w' e0 E. apply emits_quiet. eapply decontaminate_spec. exact E.
+  - eapply on_wl_emits; [|exact H]. intros w w' e0 E. apply emits_quiet. eapply flush_spec. exact E.
+  - eapply on_wl_emits; [|exact H]. intros w w' e0 E. apply emits_quiet. eapply commit_spec. exact E.
+  - eapply on_wl_emits; [|exact H]. intros w w' e0 E. apply emits_quiet. eapply set_diti_spec. exact E.
+  - eapply on_wl_emits; [|exact H]. intros w w' e0 E. eapply aspirate_well_emits. exact E.
+  - eapply on_wl_emits; [|exact H]. intros w w' e0 E. eapply dispense_well_emits. exact E.
+  - eapply on_wl_emits; [|exact H]. intros w w' e0 E. eapply reagent_distribution_emits. exact E.
+  - destruct (w_dev (st_wl s)); try (injection H as <- <-; apply emits_bounded_refl).
+    eapply evo_aspirate_emits; exact H.
+  - destruct (w_dev (st_wl s)); try (injection H as <- <-; apply emits_bounded_refl).
+    eapply evo_dispense_emits; exact H.
+  - destruct (w_dev (st_wl s)); try (injection H as <- <-; apply emits_bounded_refl).
+    eapply evo_wash_emits; exact H.
+Qed.
+
+Theorem run_emits ops : forall s, emits_bounded (st_wl s) (st_wl (fst (run s ops))).
+Proof.
+  induction ops as [|o r IH]; intro s.
+  - cbn [run fst]. apply emits_bounded_refl.
+  - rewrite run_cons. cbn [fst]. destruct (step s o) as [s1 e1] eqn:Es. cbn [fst].
+    eapply emits_bounded_trans; [eapply step_emits; exact Es|apply IH].
+Qed.
+
+(** C03_steps_bounded for programs: starting from an empty worklist, every A / D record of every
+    reachable worklist carries a volume in [0, max_volume] *)
+Theorem run_steps_bounded s ops : w_recs (st_wl s) = [] ->
+  w_max (st_wl (fst (run s ops))) = w_max (st_wl s) /\
+  Forall (bounded_rec (w_max (st_wl s))) (w_recs (st_wl (fst (run s ops)))) /\
+  step_volumes_le (w_max (st_wl s)) (w_recs (st_wl (fst (run s ops)))).
+Proof.
+  intro Hrecs. destruct (run_emits ops s) as (new & Hw & Hb). rewrite Hw. cbn [w_max w_recs emit].
+  rewrite Hrecs. cbn [app]. split; [reflexivity|]. split; [exact Hb|].
+  unfold step_volumes_le. eapply Forall_impl; [|exact Hb]. intros r Hr.
+  destruct r; try exact I; apply Hr.
+Qed.
+
+(* ------------------------------------------------------------------ C01_addressing *)
+
+(** the A / D record [r] addresses, on rack [name] with geometry [g], the well and volume of [wx] *)
+Definition ad_addresses (d : device) (name : string) (g : geom) (asp : bool) (wx : string * xnum) (r : srec) : Prop :=
+  exists f, r = (if asp then RA f else RD f) /\ ad_rack_label f = name /\
+    device_position d g (fst wx) = Ok (Z.to_nat (ad_position f)) /\ (0 <= ad_position f)%Z /\
+    xq (snd wx) = ad_volume f.
+
+Lemma emit_wells_addressing asp kw L : forall items w w' e, emit_wells asp w L items kw = (w', e) ->
+  exists new pre post, w' = emit w new /\
+    filter (fun wx => xpos (snd wx)) items = (pre ++ post)%list /\ (e = None -> post = []) /\
+    Forall2 (ad_addresses (w_dev w) (lw_name L) (lw_geom L) asp) pre new.
+Proof.
+  induction items as [|[well x] rest IH]; intros w w' e H; cbn [emit_wells] in H.
+  - injection H as <- <-. exists [], [], []. rewrite emit_nil. repeat split; constructor.
+  - cbn [filter snd].
+    assert (Hstop : forall e0, (w, Some e0) = (w', e) -> xpos x = true ->
+      exists new pre post, w' = emit w new /\
+        (if xpos x then (well, x) :: filter (fun wx => xpos (snd wx)) rest
+         else filter (fun wx => xpos (snd wx)) rest) = (pre ++ post)%list /\ (e = None -> post = []) /\
+        Forall2 (ad_addresses (w_dev w) (lw_name L) (lw_geom L) asp) pre new).
+    { intros e0 E Ex. injection E as <- <-. rewrite Ex. exists [], [], ((well, x) :: filter (fun wx => xpos (snd wx)) rest).
+      rewrite emit_nil. split; [reflexivity|]. split; [reflexivity|]. split; [discriminate|constructor]. }
+    destruct (xpos x) eqn:Ex; [|apply IH; exact H].
+    destruct (device_position (w_dev w) (lw_geom L) well) as [pos|e0] eqn:Ep; [|apply (Hstop _ H eq_refl)].
+    assert (Hrec : exists r, (forall f, prepare_ad (ad_of_kw (lw_name L) pos (xq x) kw) (Some (w_max w)) = Ok f ->
+                     (if asp then aspirate_well else dispense_well) w (ad_of_kw (lw_name L) pos (xq x) kw)
+                     = (emit w [if asp then RA f else RD f], None)) /\
+                   (forall e1, prepare_ad (ad_of_kw (lw_name L) pos (xq x) kw) (Some (w_max w)) = Err e1 ->
+                     (if asp then aspirate_well else dispense_well) w (ad_of_kw (lw_name L) pos (xq x) kw)
+                     = (w, Some e1)) /\ r = tt).
+    { exists tt. destruct asp; unfold aspirate_well, dispense_well; repeat split; intros f Hf; rewrite Hf; reflexivity. }
+    destruct Hrec as (_ & Hok & Herr & _).
+    destruct (prepare_ad (ad_of_kw (lw_name L) pos (xq x) kw) (Some (w_max w))) as [f|e1] eqn:Epa.
+    + rewrite (Hok f eq_refl) in H.
+      destruct (IH _ _ _ H) as (new & pre & post & Hw & Hf & Hn & HF).
+      exists ((if asp then RA f else RD f) :: new), ((well, x) :: pre), post.
+      split; [rewrite Hw, emit_emit; reflexivity|]. split; [rewrite Hf; reflexivity|]. split; [exact Hn|].
+      constructor; [|exact HF].
+      destruct (prepare_ad_kw _ _ _ _ _ _ Epa) as (F1 & F2 & F3 & F4 & _).
+      exists f. cbn [fst snd]. split; [reflexivity|]. split; [exact F1|]. split; [rewrite F2; exact Ep|].
+      split; [lia|symmetry; exact F4].
+    + rewrite (Herr e1 eq_refl) in H. apply (Hstop _ H eq_refl).
+Qed.
+
+Lemma comment_None w : comment w None = (w, None).
+Proof. reflexivity. Qed.
+
+Theorem aspirate_addressing s k wells vols label kw s' e L :
+  aspirate s k wells vols label kw = (s', e) -> nth_error (st_lw s) k = Some L ->
+  exists ls new pre post, st_wl s' = emit (st_wl s) (map RC ls ++ new) /\ (label = None -> ls = []) /\
+    filter (fun wx => xpos (snd wx))
+           (zip (flattenF wells) (broadcast (flattenF vols) (length (flattenF wells)))) = (pre ++ post)%list /\
+    (e = None -> post = []) /\
+    Forall2 (ad_addresses (w_dev (st_wl s)) (lw_name L) (lw_geom L) true) pre new.
+Proof.
+  intros H HL. unfold aspirate, wells_vols in H. cbv zeta in H. rewrite HL in H. cbv beta iota in H.
+  set (items := zip (flattenF wells) (broadcast (flattenF vols) (length (flattenF wells)))) in *.
+  assert (Hstop : forall t e0, st_wl t = st_wl s -> (t, Some e0) = (s', e) ->
+    exists ls new pre post, st_wl s' = emit (st_wl s) (map RC ls ++ new) /\ (label = None -> ls = []) /\
+      filter (fun wx => xpos (snd wx)) items = (pre ++ post)%list /\ (e = None -> post = []) /\
+      Forall2 (ad_addresses (w_dev (st_wl s)) (lw_name L) (lw_geom L) true) pre new).
+  { intros t e0 Ht E. injection E as <- <-. exists [], [], [], (filter (fun wx => xpos (snd wx)) items).
+    cbn [map app]. rewrite emit_nil. split; [exact Ht|]. split; [reflexivity|]. split; [reflexivity|].
+    split; [discriminate|constructor]. }
+  destruct (remove L _ _ label) as [L' [e1|]] eqn:Er; [apply (Hstop (set_lw s k L') _ eq_refl H)|].
+  destruct (remove_any _ _ _ _ _ _ Er) as [(Hn & Hg & _) _].
+  cbn [st_wl set_lw] in H. destruct (comment (st_wl s) label) as [w e2] eqn:Ec.
+  destruct (comment_spec _ _ _ _ Ec) as (ls & Hw & Hls).
+  destruct e2 as [e2|].
+  { rewrite (Hls ltac:(discriminate)) in Hw. cbn [map] in Hw. rewrite emit_nil in Hw.
+    apply (Hstop (set_wl (set_lw s k L') w) _ Hw H). }
+  destruct (emit_wells true w L' items kw) as [w' e3] eqn:Ee. injection H as <- <-.
+  destruct (emit_wells_addressing _ _ _ _ _ _ _ Ee) as (new & pre & post & Hw' & Hf & Hn' & HF).
+  exists ls, new, pre, post. cbn [st_wl set_wl]. split; [rewrite Hw', Hw, emit_emit; reflexivity|].
+  split.
+  { intros ->. rewrite comment_None in Ec. injection Ec as Ec. rewrite <- Ec in Hw.
+    destruct ls as [|l r]; [reflexivity|]. exfalso. apply (f_equal w_recs) in Hw. cbn [w_recs emit map] in Hw.
+    apply (f_equal (@length srec)) in Hw. rewrite app_length in Hw. cbn [length] in Hw. lia. }
+  split; [exact Hf|]. split; [exact Hn'|]. rewrite Hn, Hg, Hw in HF. exact HF.
+Qed.
+
+Theorem dispense_addressing s k wells vols label comps kw s' e L :
+  dispense s k wells vols label comps kw = (s', e) -> nth_error (st_lw s) k = Some L ->
+  exists ls new pre post, st_wl s' = emit (st_wl s) (map RC ls ++ new) /\ (label = None -> ls = []) /\
+    filter (fun wx => xpos (snd wx))
+           (zip (flattenF wells) (broadcast (flattenF vols) (length (flattenF wells)))) = (pre ++ post)%list /\
+    (e = None -> post = []) /\
+    Forall2 (ad_addresses (w_dev (st_wl s)) (lw_name L) (lw_geom L) false) pre new.
+Proof.
+  intros H HL. unfold dispense, wells_vols in H. cbv zeta in H. rewrite HL in H. cbv beta iota in H.
+  set (items := zip (flattenF wells) (broadcast (flattenF vols) (length (flattenF wells)))) in *.
+  assert (Hstop : forall t e0, st_wl t = st_wl s -> (t, Some e0) = (s', e) ->
+    exists ls new pre post, st_wl s' = emit (st_wl s) (map RC ls ++ new) /\ (label = None -> ls = []) /\
+      filter (fun wx => xpos (snd wx)) items = (pre ++ post)%list /\ (e = None -> post = []) /\
+      Forall2 (ad_addresses (w_dev (st_wl s)) (lw_name L) (lw_geom L) false) pre new).
+  { intros t e0 Ht E. injection E as <- <-. exists [], [], [], (filter (fun wx => xpos (snd wx)) items).
+    cbn [map app]. rewrite emit_nil. split; [exact Ht|]. split; [reflexivity|]. split; [reflexivity|].
+    split; [discriminate|constructor]. }
+  destruct (add L _ _ label comps) as [L' [e1|]] eqn:Er; [apply (Hstop (set_lw s k L') _ eq_refl H)|].
+  destruct (add_any _ _ _ _ _ _ _ Er) as [(Hn & Hg & _) _].
+  cbn [st_wl set_lw] in H. destruct (comment (st_wl s) label) as [w e2] eqn:Ec.
+  destruct (comment_spec _ _ _ _ Ec) as (ls & Hw & Hls).
+  destruct e2 as [e2|].
+  { rewrite (Hls ltac:(discriminate)) in Hw. cbn [map] in Hw. rewrite emit_nil in Hw.
+    apply (Hstop (set_wl (set_lw s k L') w) _ Hw H). }
+  destruct (emit_wells false w L' items kw) as [w' e3] eqn:Ee. injection H as <- <-.
+  destruct (emit_wells_addressing _ _ _ _ _ _ _ Ee) as (new & pre & post & Hw' & Hf & Hn' & HF).
+  exists ls, new, pre, post. cbn [st_wl set_wl]. split; [rewrite Hw', Hw, emit_emit; reflexivity|].
+  split.
+  { intros ->. rewrite comment_None in Ec. injection Ec as Ec. rewrite <- Ec in Hw.
+    destruct ls as [|l r]; [reflexivity|]. exfalso. apply (f_equal w_recs) in Hw. cbn [w_recs emit map] in Hw.
+    apply (f_equal (@length srec)) in Hw. rewrite app_length in Hw. cbn [length] in Hw. lia. }
+  split; [exact Hf|]. split; [exact Hn'|]. rewrite Hn, Hg, Hw in HF. exact HF.
+Qed.
+
+Lemma aspirate_lims s k wells vols label kw s' e : aspirate s k wells vols label kw = (s', e) ->
+  forall k' L, nth_error (st_lw s) k' = Some L ->
+  exists L', nth_error (st_lw s') k' = Some L' /\ same_lims L L'.
+Proof.
+  intro H. unfold aspirate, wells_vols in H. cbv zeta in H.
+  assert (Hid : forall k' L, nth_error (st_lw s) k' = Some L ->
+            exists L', nth_error (st_lw s) k' = Some L' /\ same_lims L L')
+    by (intros k' L A; exists L; split; [exact A|apply same_lims_refl]).
+  destruct (nth_error (st_lw s) k) as [L0|] eqn:HL; [|injection H as <- <-; exact Hid].
+  cbv beta iota in H.
+  destruct (remove L0 _ _ label) as [L1 e1] eqn:Er. destruct (remove_any _ _ _ _ _ _ Er) as [Hl _].
+  assert (Hupd : forall w k' L, nth_error (st_lw s) k' = Some L ->
+            exists L', nth_error (st_lw (set_wl (set_lw s k L1) w)) k' = Some L' /\ same_lims L L').
+  { intros w k' L A. cbn [st_lw set_wl set_lw]. destruct (Nat.eq_dec k k') as [<-|Hne].
+    - rewrite nth_error_upd_same by (eapply nth_error_lt; exact HL). exists L1. split; [reflexivity|].
+      rewrite HL in A. injection A as <-. exact Hl.
+    - rewrite nth_error_upd_other by exact Hne. exists L. split; [exact A|apply same_lims_refl]. }
+  destruct e1 as [e1|]; [injection H as <- <-; apply (Hupd (st_wl s))|].
+  cbn [st_wl set_lw] in H. destruct (comment (st_wl s) label) as [w [e2|]]; [injection H as <- <-; apply Hupd|].
+  destruct (emit_wells true w L1 _ kw) as [w' e3]. injection H as <- <-. apply Hupd.
+Qed.
+
+Theorem exec_step_addressing s ks kd sw dw v ws kw s' Ls Ld :
+  exec_step s ks kd sw dw v ws kw = (s', None) ->
+  nth_error (st_lw s) ks = Some Ls -> nth_error (st_lw s) kd = Some Ld ->
+  exists newA newD tiprecs, st_wl s' = emit (st_wl s) (newA ++ newD ++ tiprecs) /\
+    forallb quiet tiprecs = true /\
+    Forall2 (ad_addresses (w_dev (st_wl s)) (lw_name Ls) (lw_geom Ls) true)
+            (filter (fun wx => xpos (snd wx)) [(sw, XQ v)]) newA /\
+    Forall2 (ad_addresses (w_dev (st_wl s)) (lw_name Ld) (lw_geom Ld) false)
+            (filter (fun wx => xpos (snd wx)) [(dw, XQ v)]) newD.
+Proof.
+  intros H HLs HLd. unfold exec_step in H.
+  destruct (aspirate s ks (A0 sw) (A0 (XQ v)) None kw) as [s1 [e1|]] eqn:Ea; [discriminate|].
+  destruct (aspirate_addressing _ _ _ _ _ _ _ _ _ Ea HLs) as (ls1 & nA & pre1 & post1 & W1 & N1 & F1 & P1 & A1).
+  rewrite (N1 eq_refl) in W1. cbn [map app] in W1. rewrite (P1 eq_refl), app_nil_r in F1.
+  cbn [flattenF length broadcast repeat zip] in F1.
+  destruct (aspirate_lims _ _ _ _ _ _ _ _ Ea kd Ld HLd) as (Ld1 & HLd1 & (Hn & Hg & _)).
+  destruct (nth_error (st_lw s1) ks) as [Ls1|]; [|discriminate].
+  destruct (get_well_composition Ls1 sw) as [c|e2]; [|discriminate].
+  destruct (dispense s1 kd (A0 dw) (A0 (XQ v)) None (Some [Some c]) kw) as [s2 [e3|]] eqn:Ed; [discriminate|].
+  destruct (dispense_addressing _ _ _ _ _ _ _ _ _ _ Ed HLd1) as (ls2 & nD & pre2 & post2 & W2 & N2 & F2 & P2 & A2).
+  rewrite (N2 eq_refl) in W2. cbn [map app] in W2. rewrite (P2 eq_refl), app_nil_r in F2.
+  cbn [flattenF length broadcast repeat zip] in F2.
+  destruct (tip_action (st_wl s2) ws) as [w e4] eqn:Et. injection H as <- ->.
+  destruct (tip_action_spec _ _ _ _ Et) as (n3 & W3 & Q3).
+  exists nA, nD, n3. cbn [st_wl set_wl].
+  split; [rewrite W3, W2, W1, !emit_emit; reflexivity|]. split; [exact Q3|].
+  split; [rewrite F1; exact A1|]. rewrite F2, <- Hn, <- Hg. rewrite W1 in A2. exact A2.
+Qed.
+
+(** destination positions encoded by an R record: start .. end without the exclusions *)
+Definition record_dsts (f : rfields) : list nat :=
+  filter (fun p => negb (existsb (Z.eqb (Z.of_nat p)) (r_exclude f)))
+         (seq (Z.to_nat (r_dst_start f)) (Z.to_nat (r_dst_end f) + 1 - Z.to_nat (r_dst_start f))).
+
+Lemma seq_sorted n : forall a, StronglySorted lt (seq a n).
+Proof.
+  induction n as [|n IH]; intro a; cbn [seq]; constructor; [apply IH|].
+  apply Forall_forall. intros x Hx. apply in_seq in Hx. lia.
+Qed.
+
+Lemma filter_sorted {A} (R : A -> A -> Prop) (p : A -> bool) l : StronglySorted R l -> StronglySorted R (filter p l).
+Proof.
+  induction 1 as [|a l Hl IH Ha]; cbn [filter]; [constructor|].
+  destruct (p a); [|exact IH]. constructor; [exact IH|].
+  apply Forall_forall. intros x Hx. apply filter_In in Hx. destruct Hx as [Hx _].
+  rewrite Forall_forall in Ha. apply Ha. exact Hx.
+Qed.
+
+Lemma record_dsts_sorted f : StronglySorted lt (record_dsts f).
+Proof. unfold record_dsts. apply filter_sorted. apply seq_sorted. Qed.
+
+Theorem distribute_addressing s ks kd dwells a s' Ls Ld vr :
+  distribute s ks kd dwells a = (s', None) -> wf_state s ->
+  nth_error (st_lw s) ks = Some Ls -> nth_error (st_lw s) kd = Some Ld -> g_vrows (lw_geom Ls) = Some vr ->
+  let col := Z.to_nat (d_source_column a) in
+  exists ls f ps, st_wl s' = emit (st_wl s) (map RC ls ++ [RR f]) /\
+    r_src_label f = lw_name Ls /\ r_dst_label f = lw_name Ld /\
+    r_src_start f = Z.of_nat (1 + vr * col) /\ r_src_end f = Z.of_nat (vr * (col + 1)) /\
+    (col < g_cols (lw_geom Ls))%nat /\
+    positions_of (w_dev (st_wl s)) (lw_geom Ld) (flattenF dwells) = Ok ps /\
+    (forall p, In p (record_dsts f) <-> In p ps) /\ StronglySorted lt (record_dsts f).
+Proof.
+  intros H HS HLs HLd Ev col. unfold distribute in H. cbv zeta in H.
+  rewrite HLs, HLd, Ev in H. fold col in H.
+  destruct (rvol_x (d_volume a)) as [xv|]; [|discriminate].
+  pose proof (wf_geom_nth _ _ _ HS HLs) as Hgs.
+  destruct (n_row_ids_trough _ vr Hgs Ev) as [En Hvr]. rewrite En in H.
+  assert (Hbody : forall xv0,
+    (if match xv0 with XQ v => Qgtb v (w_max (st_wl s)) | XPInf => true | _ => false end
+     then (s, Some EInvalidOp)
+     else
+       if existsb (fun x => match lw_index Ld x with None => true | Some _ => false end) (flattenF dwells)
+       then (s, Some EReject) else
+       match positions_of (w_dev (st_wl s)) (lw_geom Ld) (flattenF dwells) with
+       | Err e => (s, Some e)
+       | Ok ps =>
+           match sort_Z (map Z.of_nat ps) with
+           | [] => (s, Some EReject)
+           | p0 :: tl =>
+               let sorted := p0 :: tl in
+               let plast := last sorted p0 in
+               let excl := filter (fun z => negb (existsb (Z.eqb z) sorted))
+                                  (map (fun i => (p0 + Z.of_nat i)%Z) (seq 0 (Z.to_nat (plast - p0 + 1)))) in
+               if negb (col <? g_cols (lw_geom Ls))%nat then (s, Some EReject) else
+               match remove Ls (A0 (well_id 0 col)) (A0 (xmul_nat xv0 (length ps))) (d_label a) with
+               | (Ls', Some e) => (set_lw s ks Ls', Some e)
+               | (Ls', None) =>
+                   let s1 := set_lw s ks Ls' in
+                   match get_well_composition Ls' (well_id 0 col) with
+                   | Err e => (s1, Some e)
+                   | Ok c =>
+                       match nth_error (st_lw s1) kd with
+                       | None => (s1, Some EReject)
+                       | Some Ld1 =>
+                           match add Ld1 (A1 (flattenF dwells)) (A0 xv0) (d_label a)
+                                     (Some (repeat (Some c) (length ps))) with
+                           | (Ld', Some e) => (set_lw s1 kd Ld', Some e)
+                           | (Ld', None) =>
+                               let s2 := set_lw s1 kd Ld' in
+                               let s2 := if (ks =? kd)%nat then condense_at s2 ks 2 (d_label a) else s2 in
+                               match comment (st_wl s2) (d_label a) with
+                               | (w1, Some e) => (set_wl s2 w1, Some e)
+                               | (w1, None) =>
+                                   let '(w2, e) := reagent_distribution w1
+                                     {| rd_src_label := PStr (lw_name Ls);
+                                        rd_src_start := PInt (Z.of_nat (1 + vr * col));
+                                        rd_src_end := PInt (Z.of_nat (1 + vr * col + vr - 1));
+                                        rd_dst_label := PStr (lw_name Ld);
+                                        rd_dst_start := PInt p0; rd_dst_end := PInt plast;
+                                        rd_volume := d_volume a;
+                                        rd_diti_reuse := d_diti_reuse a;
+                                        rd_multi_disp := d_multi_disp a;
+                                        rd_exclude := Some excl;
+                                        rd_liquid_class := d_liquid_class a;
+                                        rd_direction := d_direction a;
+                                        rd_src_id := d_src_id a; rd_src_type := d_src_type a;
+                                        rd_dst_id := d_dst_id a; rd_dst_type := d_dst_type a |} in
+                                   (set_wl s2 w2, e)
+                               end
+                           end
+                       end
+                   end
+               end
+           end
+       end) = (s', None) ->
+    exists ls f ps, st_wl s' = emit (st_wl s) (map RC ls ++ [RR f]) /\
+      r_src_label f = lw_name Ls /\ r_dst_label f = lw_name Ld /\
+      r_src_start f = Z.of_nat (1 + vr * col) /\ r_src_end f = Z.of_nat (vr * (col + 1)) /\
+      (col < g_cols (lw_geom Ls))%nat /\
+      positions_of (w_dev (st_wl s)) (lw_geom Ld) (flattenF dwells) = Ok ps /\
+      (forall p, In p (record_dsts f) <-> In p ps) /\ StronglySorted lt (record_dsts f)).
+  { intros xv0 Hb. match type of Hb with (if ?c then _ else _) = _ => destruct c end; [discriminate|]. clear xv H.
+    destruct (existsb _ (flattenF dwells)); [discriminate|].
+    destruct (positions_of (w_dev (st_wl s)) (lw_geom Ld) (flattenF dwells)) as [ps|e0] eqn:Eps; [|discriminate].
+    destruct (sort_Z (map Z.of_nat ps)) as [|p0 tl] eqn:Esort; [discriminate|]. cbv zeta in Hb.
+    destruct (negb (col <? g_cols (lw_geom Ls))%nat) eqn:Ecol; [discriminate|].
+    apply negb_false_iff in Ecol. apply Nat.ltb_lt in Ecol.
+    destruct (remove Ls _ _ (d_label a)) as [Ls' [e1|]]; [discriminate|].
+    destruct (get_well_composition Ls' (well_id 0 col)) as [c|e1]; [|discriminate].
+    destruct (nth_error (st_lw (set_lw s ks Ls')) kd) as [Ld1|]; [|discriminate].
+    destruct (add Ld1 _ _ (d_label a) _) as [Ld' [e2|]]; [discriminate|].
+    match type of Hb with context [comment (st_wl ?t) _] => set (s2' := t) in * end.
+    assert (Hw2' : st_wl s2' = st_wl s)
+      by (unfold s2'; destruct (ks =? kd)%nat; rewrite ?st_wl_condense; reflexivity).
+    destruct (comment (st_wl s2') (d_label a)) as [w1 [e3|]] eqn:Ec; [discriminate|].
+    match type of Hb with context [reagent_distribution w1 ?x] => set (ra := x) in * end.
+    destruct (reagent_distribution w1 ra) as [w2 e4] eqn:Er. injection Hb as <- ->.
+    destruct (comment_spec _ _ _ _ Ec) as (ls & Hw1 & _). rewrite Hw2' in Hw1.
+    pose proof (reagent_distribution_spec _ _ _ _ Er) as Hspec. cbv beta iota in Hspec.
+    destruct Hspec as (f & v' & Hwr & F1 & F2 & F3 & F4 & F5 & F6 & F7 & _).
+    unfold ra in F1, F2, F3, F4, F5, F6, F7.
+    cbn [rd_src_label rd_dst_label rd_src_start rd_src_end rd_dst_start rd_dst_end rd_exclude] in F1, F2, F3, F4, F5, F6, F7.
+    injection F1 as F1. injection F2 as F2. injection F3 as F3. injection F4 as F4.
+    injection F5 as F5. injection F6 as F6.
+    exists ls, f, ps. cbn [st_wl set_wl]. split; [rewrite Hwr, Hw1, emit_emit; reflexivity|].
+    split; [symmetry; exact F1|]. split; [symmetry; exact F2|].
+    split; [rewrite <- F3; reflexivity|]. split; [rewrite <- F4; f_equal; lia|].
+    split; [exact Ecol|]. split; [reflexivity|]. split; [|apply record_dsts_sorted].
+    unfold record_dsts. rewrite F7, <- F5, <- F6. apply (dsts_mem ps p0 tl Esort). }
+  destruct xv as [v| | |]; [exact (Hbody (XQ v) H)|discriminate|discriminate|exact (Hbody XNInf H)].
+Qed.
+
+(* ------------------------------------------------------------------ C01: the accepted calls, unchecked interpreter *)
+
+Theorem aspirate_robot s k wells vols label kw s' rb :
+  good_state s -> sim s rb -> aspirate s k wells vols label kw = (s', None) ->
+  exists new rb', st_wl s' = emit (st_wl s) new /\
+    interp false (w_dev (st_wl s)) rb new = Some rb' /\ sim s' rb'.
+Proof.
+  intros Hg Hs H. destruct (aspirate_replay _ _ _ _ _ _ _ _ _ Hg Hs H) as (new & rb' & A & B & C & _).
+  exists new, rb'. split; [exact A|]. split; [apply interp_unchecked; exact B|apply C; reflexivity].
+Qed.
+
+Theorem dispense_robot s k wells vols label comps kw s' rb :
+  good_state s -> sim s rb -> dispense s k wells vols label comps kw = (s', None) ->
+  exists new rb', st_wl s' = emit (st_wl s) new /\
+    interp false (w_dev (st_wl s)) rb new = Some rb' /\ sim s' rb'.
+Proof.
+  intros Hg Hs H. destruct (dispense_replay _ _ _ _ _ _ _ _ _ _ Hg Hs H) as (new & rb' & A & B & C & _).
+  exists new, rb'. split; [exact A|]. split; [apply interp_unchecked; exact B|apply C; reflexivity].
+Qed.
+
+Theorem exec_step_robot s ks kd sw dw v ws kw s' rb :
+  good_state s -> sim s rb -> exec_step s ks kd sw dw v ws kw = (s', None) ->
+  exists new rb', st_wl s' = emit (st_wl s) new /\
+    interp false (w_dev (st_wl s)) rb new = Some rb' /\ sim s' rb'.
+Proof.
+  intros Hg Hs H. destruct (exec_step_replay _ _ _ _ _ _ _ _ _ _ _ Hg Hs H) as (new & rb' & A & B & C & _).
+  exists new, rb'. split; [exact A|]. split; [apply interp_unchecked; exact B|apply C; reflexivity].
+Qed.
+
+Theorem transfer_robot s ks swells kd dwells vols label ws pb kw s' rb :
+  good_state s -> sim s rb -> transfer s ks swells kd dwells vols label ws pb kw = (s', None) ->
+  exists new rb', st_wl s' = emit (st_wl s) new /\
+    interp false (w_dev (st_wl s)) rb new = Some rb' /\ sim s' rb'.
+Proof.
+  intros Hg Hs H. destruct (transfer_replay _ _ _ _ _ _ _ _ _ _ _ _ _ Hg Hs H) as (new & rb' & A & B & C).
+  exists new, rb'. split; [exact A|]. split; [apply interp_unchecked; exact B|apply C; reflexivity].
+Qed.
+
+Theorem distribute_robot s ks kd dwells a s' rb :
+  good_state s -> sim s rb -> distribute_dev_ok s ks -> dst_positions_distinct s kd dwells ->
+  distribute s ks kd dwells a = (s', None) ->
+  exists new rb', st_wl s' = emit (st_wl s) new /\
+    interp false (w_dev (st_wl s)) rb new = Some rb' /\ sim s' rb'.
+Proof.
+  intros Hg Hs Hd Hn H. destruct (distribute_success _ _ _ _ _ _ _ Hg Hs Hd Hn H) as (new & rb' & A & B & C).
+  exists new, rb'. split; [exact A|]. split; [apply interp_unchecked; exact B|exact C].
+Qed.
+
+Theorem distribute_robot_evo s ks kd dwells a s' rb :
+  good_state s -> sim s rb -> w_dev (st_wl s) = Evo -> dst_positions_distinct s kd dwells ->
+  distribute s ks kd dwells a = (s', None) ->
+  exists new rb', st_wl s' = emit (st_wl s) new /\ interp false Evo rb new = Some rb' /\ sim s' rb'.
+Proof.
+  intros Hg Hs Hd Hn H. rewrite <- Hd. apply (distribute_robot s ks kd dwells a); try assumption.
+  left. exact Hd.
+Qed.
+
+Theorem distribute_robot_fluent_one_row s ks kd dwells a s' rb :
+  good_state s -> sim s rb -> w_dev (st_wl s) = Fluent ->
+  (forall Ls, nth_error (st_lw s) ks = Some Ls -> g_vrows (lw_geom Ls) = Some 1%nat) ->
+  dst_positions_distinct s kd dwells ->
+  distribute s ks kd dwells a = (s', None) ->
+  exists new rb', st_wl s' = emit (st_wl s) new /\ interp false Fluent rb new = Some rb' /\ sim s' rb'.
+Proof.
+  intros Hg Hs Hd Hone Hn H. rewrite <- Hd. apply (distribute_robot s ks kd dwells a); try assumption.
+  right. split; assumption.
+Qed.
+
+(* ------------------------------------------------------------------ concrete objects for the examples, F12 *)
+
+#[local] Open Scope string_scope.
+
+(** a trough with 4 virtual rows and 2 columns, 500 in each column *)
+Definition ex_t4 : labware :=
+  {| lw_name := "T4"; lw_geom := {| g_rows := 1; g_cols := 2; g_vrows := Some 4%nat |};
+     lw_min := 0; lw_max := 1000; lw_vols := [500; 500];
+     lw_comp := [("T4.column_01", [1; 0]); ("T4.column_02", [0; 1])];
+     lw_hist := [(Some "initial", [500; 500])] |}.
+
+(** a 2 x 2 plate, max 5000, A01 = 3000, B01 = 100 *)
+Definition ex_big : labware :=
+  {| lw_name := "big"; lw_geom := {| g_rows := 2; g_cols := 2; g_vrows := None |};
+     lw_min := 0; lw_max := 5000; lw_vols := [3000; 0; 100; 0];
+     lw_comp := [("big.A01", [1; 0; 0; 0]); ("big.B01", [0; 0; 1; 0])];
+     lw_hist := [(Some "initial", [3000; 0; 100; 0])] |}.
+
+Definition ex_dargs (col v : Z) : distargs :=
+  {| d_source_column := col; d_volume := RVInt v; d_diti_reuse := 1; d_multi_disp := 1;
+     d_liquid_class := PStr "W"; d_label := None; d_direction := "left_to_right";
+     d_src_id := PStr ""; d_src_type := PStr ""; d_dst_id := PStr ""; d_dst_type := PStr "" |}.
+
+Lemma ex_t4_wf : wf_labware ex_t4.
+Proof.
+  unfold wf_labware, wf_shape, wf_geom, vol_inv, ex_t4, n_wells.
+  cbn [lw_geom lw_vols lw_comp lw_hist lw_min lw_max g_rows g_cols g_vrows length snd].
+  repeat split; try lia; try lra; try discriminate; repeat constructor; try lra.
+Qed.
+
+Lemma ex_big_wf : wf_labware ex_big.
+Proof.
+  unfold wf_labware, wf_shape, wf_geom, vol_inv, ex_big, n_wells.
+  cbn [lw_geom lw_vols lw_comp lw_hist lw_min lw_max g_rows g_cols g_vrows length snd].
+  repeat split; try lia; try lra; try discriminate; repeat constructor; try lra.
+Qed.
+
+Definition ex_state (d : device) : state :=
+  {| st_lw := [ex_big; ex_t4]; st_wl := init_wl d 950 true false |}.
+
+Lemma ex_state_good d : d <> BaseDev -> good_state (ex_state d).
+Proof.
+  intro Hd. split; [|split; [|exact Hd]].
+  - constructor; [exact ex_big_wf|constructor; [exact ex_t4_wf|constructor]].
+  - cbn. constructor; [intros [C|[]]; discriminate|constructor; [intros []|constructor]].
+Qed.
+
+(** F12: on a FluentWorklist [distribute] still writes the source range in EVO numbering; for a
+    trough with more than one virtual row the record does not address one real well *)
+Lemma distribute_fluent_refuted :
+  exists s ks kd dwells a s',
+    good_state s /\ w_dev (st_wl s) = Fluent /\ dst_positions_distinct s kd dwells /\
+    distribute s ks kd dwells a = (s', None) /\
+    map render (w_recs (st_wl s')) = ["R;T4;;;5;8;big;;;3;4;10;W;1;1;0"] /\
+    interp false Fluent (robot_of (st_lw s)) (w_recs (st_wl s')) = None.
+Proof.
+  exists (ex_state Fluent), 1%nat, 0%nat, (A1 ["A02"; "B02"]), (ex_dargs 1 10).
+  eexists. split; [apply ex_state_good; discriminate|]. split; [reflexivity|]. split.
+  - intros Ld ps HLd Hps. cbn in HLd. injection HLd as <-. vm_compute in Hps. injection Hps as <-.
+    constructor; [intros [C|[]]; discriminate|constructor; [intros []|constructor]].
+  - split; [vm_compute; reflexivity|]. split; vm_compute; reflexivity.
 Qed.
